@@ -9,6 +9,9 @@
 #include <vector>
 #include <array>
 #include <cassert>
+#include <limits>
+#include <cmath>
+#include <algorithm>
 
 template <long int Dim_T, class ConfigurationClass_T, const bool IsPeriodic_v = false>
 class TbfMortonSpaceIndex{
@@ -26,12 +29,20 @@ protected:
     const ConfigurationClass configuration;
 
     long int getTreeCoordinate(const RealType inRelativePosition, const long int inDim) const {
-        assert(inRelativePosition >= 0 && inRelativePosition <= configuration.getBoxWidths()[inDim]);
-        if(inRelativePosition == configuration.getBoxWidths()[inDim]){
-            return (1 << (configuration.getTreeHeight()-1))-1;
+        // The box corner is a rounded value, so a point lying on a box face can be
+        // off by a few ulps of (|center| + width): clamp it inside the grid
+        [[maybe_unused]] const RealType tolerance = 4 * std::numeric_limits<RealType>::epsilon()
+                * (std::abs(configuration.getBoxCenter()[inDim]) + configuration.getBoxWidths()[inDim]);
+        assert(inRelativePosition >= -tolerance && inRelativePosition <= configuration.getBoxWidths()[inDim] + tolerance);
+        const long int maxCoordinate = (1L << (configuration.getTreeHeight()-1))-1;
+        if(inRelativePosition >= configuration.getBoxWidths()[inDim]){
+            return maxCoordinate;
+        }
+        if(inRelativePosition <= 0){
+            return 0;
         }
         const RealType indexFReal = inRelativePosition / configuration.getLeafWidths()[inDim];
-        return static_cast<long int>(indexFReal);
+        return std::min(maxCoordinate, static_cast<long int>(indexFReal));
     }
 
 public:
